@@ -103,12 +103,15 @@ class DilutionPlan:
         # transfer from stock until the volume is too low
         for c in range(C):
             vtransfer = numpy.round(vmax_arr[c] * ideal_targets[:, c] / stock, 0)
-            if all(vtransfer >= min_transfer):
+            if all(vtransfer >= min_transfer) and all(vtransfer <= vmax_arr[c]):
                 instructions.append((c, 0, "stock", vtransfer))
                 # compute the actually achieved target concentration
                 actual_targets.append(vtransfer / vmax_arr[c] * stock)
             else:
                 break
+
+        # volume that remains available in each column (per row) for preparing other columns from it
+        available = [numpy.full(R, vmax_arr[c], dtype=float) for c in range(C)]
 
         # prepare remaining columns by diluting existing ones
         for c in range(len(instructions), C):
@@ -117,7 +120,13 @@ class DilutionPlan:
                 _, src_df, _, _ = instructions[src_c]
                 vtransfer = numpy.ceil(vmax_arr[c] * ideal_targets[:, c] / actual_targets[src_c])
                 # take the leftmost column (least dilution steps) where the minimal transfer volume is exceeded
-                if all(vtransfer >= min_transfer):
+                # and that still holds enough volume
+                if (
+                    all(vtransfer >= min_transfer)
+                    and all(vtransfer <= vmax_arr[c])
+                    and all(vtransfer <= available[src_c])
+                ):
+                    available[src_c] = available[src_c] - vtransfer
                     instructions.append(
                         # increment the dilution step counter
                         (c, src_df + 1, src_c, vtransfer)
